@@ -26,12 +26,15 @@ FEATURES = {'ver.between-2-and-3': 'for a non-official version strictly between 
                                    'reader accept 3.0-only data while both writers and the JSON reader refuse it'}
 EXHAUSTIVE_CLAIM = True
 
-VERSIONS = [None, '2.0', '3.0', '2.5', '3.0.0', '1.0', '4.0']
+VERSIONS = [None, '2.0', '3.0', '2.5', '3.0.0', '1.0', '4.0', '2.0.1', '2.0a']
 INNER = ['grid', '3.0', [], [['x', []]], [[['x', ['num', 1.0]]]]]
 V3_VALUES = {
     'na': ['na'], 'list': ['list', [['num', 1.0]]], 'dict': ['dict', [['k', ['str', 'v']]]], 'grid': INNER,
     'xstr': ['xstr', 'Foo', 'bar'],
 }
+# instances of subclasses of the container types are the same kinds of value
+V3_SUBCLASS = {'dict': ['py', 'OrderedDict'], 'list': ['py', 'ListSubclass'], 'grid': ['py', 'GridSubclass'],
+               'na': ['py', 'defaultdict'], 'xstr': ['py', 'XStrSubclass']}
 V3_NESTED = {
     'na': ['list', [['na']]], 'list': ['dict', [['k', ['list', []]]]], 'dict': ['list', [['dict', []]]],
     'grid': ['list', [INNER]], 'xstr': ['dict', [['k', ['xstr', 'hex', 'ff']]]],
@@ -39,7 +42,7 @@ V3_NESTED = {
 V2_VALUES = [['num', 1.0], ['str', 's'], ['marker'], ['ref', 'r', None], ['qty', 2.0, 'kW'], ['bool', True], ['remove'],
              ['uri', 'u'], ['date', 2020, 1, 1], ['coord', 1.0, 2.0]]
 PATHS = ['ctor_meta', 'ctor_colmeta', 'meta_set', 'meta_append', 'meta_extend', 'colmeta_set', 'colmeta_add',
-         'append', 'insert', 'extend', 'iadd', 'setitem']
+         'append', 'insert', 'extend', 'iadd', 'setitem', 'extend_grid', 'iadd_grid']
 BYPASS = ['bypass_row', 'bypass_col']
 DERIVE = ['derive_slice', 'derive_filter']
 
@@ -50,12 +53,45 @@ def refuses(label):
         return False
     if label in ('2.0', '1.0'):
         return True
-    if label == '2.5':
+    if label in ('2.5', '2.0.1', '2.0a'):
         return None     # free, but must be the same at all five decision points
     raise ValueError(label)
 
 
+class ListSubclass(list):
+    pass
+
+
+def py_value(name):
+    import collections
+    import hszinc
+    if name == 'OrderedDict':
+        return collections.OrderedDict([('k', 'v')])
+    if name == 'defaultdict':
+        d = collections.defaultdict(list)
+        d['k'] = 'v'
+        return d
+    if name == 'ListSubclass':
+        return ListSubclass([1.0])
+    if name == 'XStrSubclass':
+        return type('XStrSubclass', (hszinc.XStr,), {})('Foo', 'bar')
+    if name == 'GridSubclass':
+        g = type('GridSubclass', (hszinc.Grid,), {})(version='3.0')
+        g.column['x'] = {}
+        g.append({'x': 1.0})
+        return g
+    raise ValueError(name)
+
+
+def build_value(m):
+    if m[0] == 'py':
+        return py_value(m[1])
+    return model.from_model(m)
+
+
 def is_v3(m):
+    if m[0] == 'py':
+        return True
     return any(k in model.V3_ONLY for _, k in model.kinds(m))
 
 
@@ -79,8 +115,8 @@ def build(case):
     """returns (grid or None, outcome) applying the constructor part of the case"""
     import hszinc
     v = case['version']
-    meta = dict((k, model.from_model(x)) for k, x in case.get('ctor_meta', []))
-    cols = [('a', [(k, model.from_model(x)) for k, x in case.get('ctor_colmeta', [])]), ('b', [])]
+    meta = dict((k, build_value(x)) for k, x in case.get('ctor_meta', []))
+    cols = [('a', [(k, build_value(x)) for k, x in case.get('ctor_colmeta', [])]), ('b', [])]
     try:
         g = hszinc.Grid(version=v, metadata=meta, columns=cols)
     except ValueError:
@@ -95,8 +131,9 @@ def apply_op(g, op):
         return g[:]
     if kind == 'derive_filter':
         return g.filter('not zzNoSuchTag')
-    val = model.from_model(op[-1]) if kind not in ('append', 'insert', 'extend', 'iadd', 'setitem') else None
-    row = dict((c, model.from_model(x)) for c, x in op[-1]) if val is None else None
+    rowops = ('append', 'insert', 'extend', 'iadd', 'setitem', 'extend_grid', 'iadd_grid')
+    val = build_value(op[-1]) if kind not in rowops else None
+    row = dict((c, build_value(x)) for c, x in op[-1]) if val is None else None
     if kind == 'meta_set':
         g.metadata[op[1]] = val
     elif kind == 'meta_append':
@@ -115,6 +152,16 @@ def apply_op(g, op):
         g.extend([row])
     elif kind == 'iadd':
         g += [row]
+    elif kind in ('extend_grid', 'iadd_grid'):
+        # the rows come from another grid (labelled 3.0, so it may hold anything)
+        other = hszinc.Grid(version='3.0')
+        other.column['a'] = {}
+        other.column['b'] = {}
+        other.append(row)
+        if kind == 'extend_grid':
+            g.extend(other)
+        else:
+            g += other
     elif kind == 'setitem':
         if len(g) == 0:
             g.append({'a': 0})
@@ -132,7 +179,7 @@ def apply_op(g, op):
 def op_value_models(op):
     if op[0] in DERIVE:
         return []
-    if op[0] in ('append', 'insert', 'extend', 'iadd', 'setitem'):
+    if op[0] in ('append', 'insert', 'extend', 'iadd', 'setitem', 'extend_grid', 'iadd_grid'):
         return [x for _, x in op[-1]]
     return [op[-1]]
 
@@ -355,8 +402,8 @@ def single_op_cases():
     """label x entry path x kind x {direct, nested}"""
     for v in VERSIONS:
         for kind in sorted(V3_VALUES):
-            for nested in (False, True):
-                val = (V3_NESTED if nested else V3_VALUES)[kind]
+            for nested in (False, True, 'subclass'):
+                val = V3_SUBCLASS[kind] if nested == 'subclass' else (V3_NESTED if nested else V3_VALUES)[kind]
                 for path in PATHS + BYPASS:
                     yield make_case(v, path, val)
         for val in V2_VALUES[:4]:
@@ -382,7 +429,7 @@ def add_op(case, path, val):
         case['ops'].append([path, 'm' + path[5:6], val])
     elif path in ('colmeta_set', 'colmeta_add'):
         case['ops'].append([path, 'a', 'k' + path[8:9], val])
-    elif path in ('append', 'insert', 'extend', 'iadd', 'setitem'):
+    elif path in ('append', 'insert', 'extend', 'iadd', 'setitem', 'extend_grid', 'iadd_grid'):
         case['ops'].append([path, [['a', val], ['b', ['num', 7.0]]]])
     elif path == 'bypass_row':
         case['ops'].append([path, 'a', val])
@@ -406,7 +453,7 @@ def plan(tier, seed, excl):
 
 def alphabet():
     vals = [V3_VALUES['na'], V3_VALUES['xstr'], V3_NESTED['grid'], V2_VALUES[0]]
-    paths = ['ctor_meta', 'meta_set', 'colmeta_set', 'append', 'setitem', 'iadd', 'bypass_row', 'bypass_col']
+    paths = ['ctor_meta', 'meta_set', 'colmeta_set', 'append', 'setitem', 'iadd', 'bypass_row', 'bypass_col', 'extend_grid']
     return [(p, x) for p in paths for x in vals] + [('derive_slice', None), ('derive_filter', None)]
 
 
